@@ -1244,8 +1244,20 @@ def move_verdicts(mvb):
     # the stop verdict: the one assigned on a path that asserts "the layer vector (parameter #2) is empty"
     stop = None
     for c_, ps_ in pts.items():
-        ok_, _, _ = M.guarded(mvb, ps_, lambda atoms, lit: any(empty_lit(a, lambda x: M.is_param(x, index=2)) for a in atoms))
-        if ok_:
+        # path-sensitive, with freshness: a test of the vector made BEFORE it is filled (a debug_assert!(curr_l.is_empty()) at the top)
+        # says nothing about the drained layer — literals are dropped once the vector is handed out mutably / refilled
+        ok_ = True
+        n_ = 0
+        for (edges_, blocks_, end_) in M.enumerate_paths(mvb, (0, 0), stops=ps_):
+            if end_ not in ps_:
+                continue
+            atoms_ = M.path_atoms_fresh(mvb, edges_, blocks_)
+            if not M.consistent(atoms_):
+                continue
+            n_ += 1
+            if not any(empty_lit(a, lambda x: M.is_param(x, index=2)) for a in atoms_):
+                ok_ = False
+        if ok_ and n_:
             stop = c_ if stop is None else 'both'
     if stop is None or stop == 'both':
         return None
